@@ -747,4 +747,50 @@ func FindUpdates
       invariant[tree]    treeLast(l, keyOffset, ite(rangeindex + 1 < len(msgs), msgs[rangeindex+1].Offset, offset))
       invariant[sel]     updatesSel(l, keyOffset, offsets, ite(rangeindex + 1 < len(msgs), msgs[rangeindex+1].Offset, offset))
 
+
+// the key tree maps every scanned key to the SMALLEST scanned offset with that key
+pred treeFirst(l Log, t art.Tree, b int64) :=
+    (forall o int64 :: scanned(l, o, b) ==> tHas[t][gKey[l][o]] && typeis(tVal[t][gKey[l][o]], int64) && keyOff(t, gKey[l][o]) <= o)
+    && (forall k bseq :: tHas[t][k] ==> typeis(tVal[t][k], int64) && scanned(l, keyOff(t, k), b) && gKey[l][keyOff(t, k)] == k)
+
+// selected = scanned, first scanned message of its key, and without value
+pred deletesSel(l Log, t art.Tree, s map[int64]struct{}, b int64) :=
+    forall o int64 :: has(s, o) <==> scanned(l, o, b) && o == keyOff(t, gKey[l][o]) && !gHasValue[l][o]
+
+func FindDeletes
+    requires absWf(l)
+    assigns tHas, tVal
+    ensures[live]      err == nil ==> ret0 != nil && (forall o int64 :: has(ret0, o) ==> gLive[l][o])
+    ensures[valueless] err == nil ==> forall o int64 :: has(ret0, o) ==> !gHasValue[l][o]
+    ensures[notnewer]  err == nil ==> forall o int64 :: has(ret0, o) ==> gMicro[l][o] <= micro(before)
+    // only the OLDEST live message of a key is ever selected
+    ensures[oldest]    err == nil ==> forall o int64, p int64 :: has(ret0, o) && gLive[l][p] && p < o ==> gKey[l][p] != gKey[l][o]
+    loop 1
+      invariant[nonnil]  offsets != nil && maxOffset == gNext[l] && keyOffset != nil
+      invariant[cursor]  offset == message.OffsetOldest || offset >= 0
+      invariant[notnewer] forall o int64 :: scanned(l, o, ite(offset == message.OffsetOldest, 0, offset)) ==> gMicro[l][o] <= micro(before)
+      invariant[tree]    treeFirst(l, keyOffset, ite(offset == message.OffsetOldest, 0, offset))
+      invariant[sel]     deletesSel(l, keyOffset, offsets, ite(offset == message.OffsetOldest, 0, offset))
+    loop 2
+      invariant[idx]     -1 <= rangeindex && rangeindex < len(msgs)
+      invariant[nonnil]  offsets != nil && keyOffset != nil
+      invariant[notnewer] forall o int64 :: scanned(l, o, ite(rangeindex + 1 < len(msgs), msgs[rangeindex+1].Offset, offset)) ==> gMicro[l][o] <= micro(before)
+      invariant[tree]    treeFirst(l, keyOffset, ite(rangeindex + 1 < len(msgs), msgs[rangeindex+1].Offset, offset))
+      invariant[sel]     deletesSel(l, keyOffset, offsets, ite(rangeindex + 1 < len(msgs), msgs[rangeindex+1].Offset, offset))
+
+// latest-value preservation, from the two selection contracts (pure lemmas):
+// CompactUpdates never selects the last live message of a key
+lemma updatesKeepLast(l Log, s map[int64]struct{}, o int64, cut int64)
+    requires forall q int64 :: has(s, q) ==> (exists p int64 :: gLive[l][p] && q < p && gKey[l][p] == gKey[l][q] && gMicro[l][p] <= cut)
+    requires gLive[l][o] && (forall p int64 :: gLive[l][p] && gKey[l][p] == gKey[l][o] ==> p <= o)
+    ensures  !has(s, o)
+
+// CompactDeletes selects the last live message of a key only if it is the key's only message and has no
+// value: the key is "absent" before and after
+lemma deletesKeepLatest(l Log, s map[int64]struct{}, o int64)
+    requires forall q int64 :: has(s, q) ==> !gHasValue[l][q]
+    requires forall q int64, p int64 :: has(s, q) && gLive[l][p] && p < q ==> gKey[l][p] != gKey[l][q]
+    requires has(s, o) && gLive[l][o] && (forall p int64 :: gLive[l][p] && gKey[l][p] == gKey[l][o] ==> p <= o)
+    ensures  !gHasValue[l][o] && (forall p int64 :: gLive[l][p] && gKey[l][p] == gKey[l][o] ==> p == o)
+
 @*/
